@@ -74,10 +74,14 @@ func init() {
 	})
 }
 
-// rollWriterAnchor (Model/LogWriter.lean): the rotation branch of RollFileWriter.Write
-// (`if w.currSize >= w.size { … }`) must, after the rename loop, make <name>.log current again:
-// a call of reOpenFile (or of anything whose name contains "open"), an assignment to w.currFile,
-// or a call that is handed &w.currFile. loggerRollReopenAfterRotate = 1 iff it does.
+// rollWriterAnchor (Model/LogWriter.lean): in the rotation branch of RollFileWriter.Write — the code
+// that runs when the size limit is reached, written as `if w.currSize >= w.size { … }` or as the rest
+// of the function after `if w.currSize < w.size { return }` — <name>.log must be made current again
+// after the files have been shifted. Shift: the rename loop, inline or in a helper of the package
+// (a function whose body renames). Reopen: a call of reOpenFile (or of anything whose name contains
+// "open"), an assignment to w.currFile, a call that is handed &w.currFile, or a helper of the package
+// that does one of these. What counts is the order of the two in the branch.
+// loggerRollReopenAfterRotate = 1 iff a reopen follows the shift.
 func rollWriterAnchor(add func(string, int64, bool)) {
 	const rel = "tars/util/rogger/logwriter.go"
 	f := parse(rel)
@@ -88,67 +92,147 @@ func rollWriterAnchor(add func(string, int64, bool)) {
 	if fd == nil || fd.Body == nil {
 		return
 	}
-	var branch *ast.IfStmt
-	ast.Inspect(fd.Body, func(n ast.Node) bool {
-		is, ok := n.(*ast.IfStmt)
-		if !ok || branch != nil {
-			return branch == nil
+	table := f.funcsOfPkg()
+	calleeDecls := func(c *ast.CallExpr) []*ast.FuncDecl {
+		name := ""
+		switch fn := c.Fun.(type) {
+		case *ast.Ident:
+			name = fn.Name
+		case *ast.SelectorExpr:
+			name = fn.Sel.Name
 		}
-		be, ok := is.Cond.(*ast.BinaryExpr)
-		if !ok {
-			return true
+		if ds := table[name]; len(ds) > 0 && len(ds) <= 3 {
+			return ds
 		}
-		c := exprStr(f.fset, be)
-		if strings.Contains(c, "currSize") && strings.Contains(c, "size") &&
-			(be.Op == token.GEQ || be.Op == token.GTR || be.Op == token.LEQ || be.Op == token.LSS) {
-			// it is the rotation branch if it contains the rename loop
-			hasLoop := false
-			ast.Inspect(is.Body, func(m ast.Node) bool {
-				if _, ok := m.(*ast.ForStmt); ok {
-					hasLoop = true
-				}
-				return !hasLoop
-			})
-			if hasLoop {
-				branch = is
-				return false
+		return nil
+	}
+	renames := func(n ast.Node) bool {
+		r := false
+		ast.Inspect(n, func(m ast.Node) bool {
+			if c, ok := m.(*ast.CallExpr); ok && strings.Contains(exprStr(f.fset, c.Fun), "Rename") {
+				r = true
 			}
-		}
-		return true
-	})
-	if branch == nil {
-		anchorLost("%s: RollFileWriter.Write: rotation branch `if w.currSize >= w.size { … for … }` not found", rel)
-		return
+			return !r
+		})
+		return r
 	}
-	// statements after the (last) rename loop
-	last := -1
-	for i, st := range branch.Body.List {
-		if _, ok := st.(*ast.ForStmt); ok {
-			last = i
-		}
-	}
-	reopens := false
-	for _, st := range branch.Body.List[last+1:] {
-		ast.Inspect(st, func(n ast.Node) bool {
-			switch x := n.(type) {
+	opensHere := func(n ast.Node) bool {
+		r := false
+		ast.Inspect(n, func(m ast.Node) bool {
+			switch x := m.(type) {
 			case *ast.CallExpr:
 				if strings.Contains(strings.ToLower(exprStr(f.fset, x.Fun)), "open") {
-					reopens = true
+					r = true
 				}
 				for _, a := range x.Args {
-					if strings.HasSuffix(exprStr(f.fset, a), ".currFile") && strings.HasPrefix(exprStr(f.fset, a), "&") {
-						reopens = true
+					if t := exprStr(f.fset, a); strings.HasPrefix(t, "&") && strings.HasSuffix(t, ".currFile") {
+						r = true
 					}
 				}
 			case *ast.AssignStmt:
 				for _, l := range x.Lhs {
 					if strings.HasSuffix(exprStr(f.fset, l), ".currFile") {
-						reopens = true // also `= nil`: the next Write then reopens <name>.log by name
+						r = true // also `= nil`: the next Write then reopens <name>.log by name
 					}
 				}
 			}
-			return true
+			return !r
 		})
+		return r
+	}
+	// does the statement do `what`, itself or through a helper of the package (one level)?
+	does := func(st ast.Node, what func(ast.Node) bool) bool {
+		if what(st) {
+			return true
+		}
+		r := false
+		ast.Inspect(st, func(m ast.Node) bool {
+			if c, ok := m.(*ast.CallExpr); ok {
+				for _, d := range calleeDecls(c) {
+					if d != fd && d.Body != nil && what(d.Body) {
+						r = true
+					}
+				}
+			}
+			return !r
+		})
+		return r
+	}
+	sizeTest := func(e ast.Expr) (reached, below bool) {
+		if p, ok := e.(*ast.ParenExpr); ok {
+			e = p.X
+		}
+		be, ok := e.(*ast.BinaryExpr)
+		if !ok {
+			return
+		}
+		x, y := exprStr(f.fset, be.X), exprStr(f.fset, be.Y)
+		curL := strings.Contains(x, "currSize") && strings.Contains(y, "size") && !strings.Contains(y, "currSize")
+		curR := strings.Contains(y, "currSize") && strings.Contains(x, "size") && !strings.Contains(x, "currSize")
+		switch {
+		case curL && (be.Op == token.GEQ || be.Op == token.GTR), curR && (be.Op == token.LEQ || be.Op == token.LSS):
+			reached = true
+		case curL && (be.Op == token.LSS || be.Op == token.LEQ), curR && (be.Op == token.GTR || be.Op == token.GEQ):
+			below = true
+		}
+		return
+	}
+	endsInReturn := func(b *ast.BlockStmt) bool {
+		if b == nil || len(b.List) == 0 {
+			return false
+		}
+		_, ok := b.List[len(b.List)-1].(*ast.ReturnStmt)
+		return ok
+	}
+	var branch []ast.Stmt
+	found := false
+	for i, st := range fd.Body.List {
+		is, ok := st.(*ast.IfStmt)
+		if !ok {
+			continue
+		}
+		reached, below := sizeTest(is.Cond)
+		if reached {
+			branch, found = is.Body.List, true
+			break
+		}
+		if below && endsInReturn(is.Body) {
+			if eb, ok := is.Else.(*ast.BlockStmt); ok {
+				branch = append(branch, eb.List...)
+			}
+			branch, found = append(branch, fd.Body.List[i+1:]...), true
+			break
+		}
+		if below && is.Else != nil {
+			if eb, ok := is.Else.(*ast.BlockStmt); ok {
+				branch, found = eb.List, true
+				break
+			}
+		}
+	}
+	if !found {
+		anchorLost("%s: RollFileWriter.Write: rotation branch (`if w.currSize >= w.size { … }` or the code after `if w.currSize < w.size { return }`) not found", rel)
+		return
+	}
+	shift := -1
+	for i, st := range branch {
+		if does(st, renames) {
+			shift = i
+			break
+		}
+	}
+	if shift < 0 {
+		anchorLost("%s: RollFileWriter.Write: the rotation branch does not shift the rolled files (no rename, inline or in a helper)", rel)
+		return
+	}
+	reopens := false
+	for _, st := range branch[shift+1:] {
+		if _, isBlock := st.(*ast.BlockStmt); isBlock {
+			continue // a helper body appended by the fallback reading: its position says nothing
+		}
+		if does(st, opensHere) {
+			reopens = true
+		}
 	}
 	v := int64(0)
 	if reopens {
